@@ -568,8 +568,7 @@ class PageElement(object):
         old_parent = self.parent
         my_index = self.parent.index(self)
         self.extract(_self_index=my_index)
-        for idx, replace_with in enumerate(args, start=my_index):
-            old_parent.insert(idx, replace_with)
+        old_parent.insert(my_index, *args)
         return self
 
     replaceWith = _deprecated_function_alias("replaceWith", "replace_with", "4.0.0")
@@ -731,16 +730,19 @@ class PageElement(object):
         if any(x is self for x in args):
             raise ValueError("Can't insert an element after itself.")
 
-        offset = 0
+        anchor: PageElement = self
         results: List[PageElement] = []
         for successor in args:
             # Extract first so that the index won't be screwed up if they
             # are siblings.
             if isinstance(successor, PageElement):
                 successor.extract()
-            index = parent.index(self)
-            results.extend(parent.insert(index + 1 + offset, successor))
-            offset += 1
+            # Each element goes right after the one inserted before it.
+            index = parent.index(anchor)
+            inserted = parent.insert(index + 1, successor)
+            results.extend(inserted)
+            if inserted:
+                anchor = inserted[-1]
 
         return results
 
@@ -1928,8 +1930,12 @@ class Tag(PageElement):
         """
         inserted: List[PageElement] = []
         for new_child in new_children:
-            inserted.extend(self._insert(position, new_child))
-            position += 1
+            just_inserted = self._insert(position, new_child)
+            inserted.extend(just_inserted)
+            if just_inserted:
+                # The next element goes right after the one we just
+                # inserted, wherever that one ended up.
+                position = self.index(just_inserted[-1]) + 1
         return inserted
 
     def _insert(self, position: int, new_child: _InsertableElement) -> List[PageElement]:
